@@ -13,6 +13,11 @@ CLAIMED = {
           "DESIGN.md §3 C08",
           "trusted: the reference lexer/parser in harness/src/refl.rs (cross-checked by printer/parser round trip on every sentence and golden cases); bounds: string length, token count, AST size as stated",
           "bounded-exhaustive input enumeration (model checking of a sequential component against a reference model)"),
+  "C12": ("exploration",
+          "bounded-exhaustive enumeration under catch_unwind / exit-status observation: every byte string <= 2 (3) bytes over all 256 values, every sequence of <= 4 (5) lexemes incl. extreme numbers, non-ASCII digits, unbalanced quotes/braces and NUL, flat inputs of every length 2^j and 2^j+-1 up to 64 KiB, every nesting depth 1..200 of nine nesting constructs, and the real rsbdd binary on a formula core x all 576 option combinations x 4 ordering files x 3 input channels plus every lexeme soup <= 2 (3) as formula and as ordering file. Right level: the property is a pure for-all-inputs safety claim; inside the bound nothing is sampled.",
+          "DESIGN.md §3 C12",
+          "panic = unwinding panic caught in-process, exit status 101 / signal / no termination within 60 s for the binary; aborts (stack overflow) are found through the worker-crash path of the runner; evaluation only of formulas whose fixed points the reference finds convergent",
+          "bounded-exhaustive input and configuration enumeration with crash oracle"),
 }
 
 NOT_YET = "engine not built yet in this session (work in progress; see DESIGN.md §10)"
